@@ -20,7 +20,9 @@ CORNERS = [
     "uint64 BIG = 10 ** 5000", "float64 BIG = 10 ** 5000", "@assert 10 ** 5000 > 0", "uint8[10 ** 30] huge", "uint8[<=2 ** 64] huge",
     "uint8[<=2 ** 64 - 1] huge", "@extent 10 ** 30", "@extent 8 * 10 ** 30", "@print {1, 2}.min", "@print {1, 'a'}", "@print {}",
     "@print {'a', 'b'}.max", "@print {true}.min", "@print true.min", "@print 'a'.count", "@print 1 .count", "@print 1.0.x",
-    "@print -{1}", "@print !1", "@print !{true}", "@print 1 || 2", "@print 'a' + 1", "@print {1} + {2}", "@print {1} * 'a'",
+    "@print ({1, 2} & {3, 4}).min", "@print ({1, 2} & {3, 4}).max", "@print ({1} ^ {1}).count", "@print {1, 2} & {3}", "@print ({1, 2} & {3, 4}) == {1}",
+    "@assert (_offset_ & {1}).count == 0", "@print (_offset_ ^ _offset_).max", "@print ({1, 2} & {3}) | {1}", "@print ({'a'} & {'b'}).min", "@print ({1} & {2}) + 1",
+    "uint8[({1, 2} & {3}).count + 1] ec", "@print -{1}", "@print !1", "@print !{true}", "@print 1 || 2", "@print 'a' + 1", "@print {1} + {2}", "@print {1} * 'a'",
     "@print 1 < 'a'", "@print {1} < 1", "@print 2 ** {1, 2}", "@print {2} ** 2", "@print {1/2} | {1}", "@print 1.5 | 1", "@print 1 & 0.5",
     "@print ~1", "@print uint8", "@print uint8._bit_length_", "@print uint8[<=3]._bit_length_", "@print uint8._extent_",
     "@print void8._bit_length_", "@print uint8.nope", "@print _offset_.nope", "@print _offset_ + 1", "@print _offset_ ** 2",
@@ -31,6 +33,8 @@ CORNERS = [
     "uint8[1] [2] a", "saturated bool b", "truncated bool b", "saturated saturated uint8 a", "truncated void8", "void8[2]", "void8 = 1",
     "utf8[<=2] s = 'a'", "byte[2] y = 1", "uint8 a = ", "uint8 = 1", "bool B = true || 1", "bool B = !true", "float16 F = 65504.0000001",
     "float16 F = -65504", "float32 F = 3.5e38", "int2 I = -2", "int2 I = -3", "uint1 U = 1", "uint1 U = 2", "uint8 S = 'ab'", "uint8 S = ''",
+    "@print " + "1" * 4400, "@print 1." + "1" * 4400, "uint8 LONG = " + "9" * 4400, "uint8[" + "9" * 4400 + "] long_cap", "@print 0x" + "f" * 4400,
+    "@print " + "0" * 4400, "@assert " + "7" * 4301 + " > 0", "@extent " + "8" * 4400,
     "uint8 a # \x00 control in a comment", "uint8 é", "uint8 a\x0bb", "\ufeffuint8 a", "uint8 a\x0c", "uint8\u00a0a", "uint8 a\u2028uint8 b",
 ]
 SVC_CORNERS = ["@print %s._extent_", "@print %s._bit_length_", "%s svc_field", "%s[2] svc_arr", "@assert %s.nope == 1", "@print %s == %s"]
@@ -39,22 +43,67 @@ STRAY_NAMES = ["README.md", "Foo.dsdl", "Foo.1.dsdl", "Foo.1.0.0.0.dsdl", "1.2.F
                "Foo.-1.0.dsdl", "Foo.1.0 .dsdl", " Foo.1.0.dsdl", "Fo o.1.0.dsdl", "Føø.1.0.dsdl", "Foo.١.0.dsdl", "Foo.1.0.DSDL", "1a.1.0.dsdl",
                "a-b.1.0.dsdl", "uint8.1.0.dsdl", "Foo.0.0.dsdl", "Foo.256.0.dsdl", "9999.Foo.1.0.dsdl", "99999999999999999999.Foo.1.0.dsdl",
                "Foo.99999999999999999999999.0.dsdl", "0x10.Foo.1.0.dsdl", "Foo.1.0.dsdl.dsdl", "Twin.1.0.dsdl|Twin.1.0.uavcan",
-               "Twin.1.0.dsdl|7.Twin.1.0.dsdl", "Twin.1.0.dsdl|twin.1.0.dsdl", "sub.dir/Foo.1.0.dsdl", "bad-dir/Foo.1.0.dsdl", "uint8/Foo.1.0.dsdl"]
+               "Twin.1.0.dsdl|7.Twin.1.0.dsdl", "Twin.1.0.dsdl|twin.1.0.dsdl", "sub.dir/Foo.1.0.dsdl", "bad-dir/Foo.1.0.dsdl", "uint8/Foo.1.0.dsdl",
+               "\u00b2.Foo.1.0.dsdl", "Foo.1.\u2460.dsdl", "Foo.1\u00b3.0.dsdl", "Foo.\u2081.0.dsdl", "\u00bd.Foo.1.0.dsdl", "\u2167.Foo.1.0.dsdl", "Foo.\uff11.0.dsdl",
+               "\u0663.Foo.1.0.dsdl", "Foo.1.0\u00b2.dsdl", "Foo.+1.0.dsdl", "Foo.1_0.0.dsdl", "Foo. 1.0.dsdl", "1e2.Foo.1.0.dsdl", "Foo.1.0x1.dsdl", "Foo.1.-0.dsdl"]
 
 _TOKEN = re.compile(r"\s+|[A-Za-z_][A-Za-z0-9_]*|\d+|.", re.S)
 
 
+ATOMS = ["0", "1", "2", "-1", "7", "8", "64", "0.5", "1/3", "2.5e1", "0x10", "0b101", "true", "false", "'a'", "'ab'", "''", "{1}", "{1, 2}", "{3, 4}", "{1, 2, 3}",
+         "{true}", "{'a', 'b'}", "{1/2}", "_offset_", "uint8", "bool", "float16", "uint8[<=2]", "{0}", "{8, 16}"]
+BINOPS = ["+", "-", "*", "/", "%", "**", "|", "&", "^", "==", "!=", "<", "<=", ">", ">=", "||", "&&"]
+ATTRS = ["min", "max", "count", "_bit_length_", "_extent_", "nope", "x"]
+
+
+def rand_expr(rng: random.Random, depth: int) -> str:
+    """A small random constant expression (bounded nesting and magnitude); most are invalid - that is the point."""
+    if depth <= 0 or rng.random() < 0.25:
+        return rng.choice(ATOMS)
+    r = rng.random()
+    if r < 0.55:
+        op = rng.choice(BINOPS)
+        a = rand_expr(rng, depth - 1)
+        if op in "|&^" and rng.random() < 0.6:
+            return "(%s %s %s)" % (rng.choice(["{1}", "{1, 2}", "{3, 4}", "{1, 2, 3}", "_offset_", "{'a'}"]), op, rng.choice(["{1}", "{1, 2}", "{3, 4}", "{2, 3}", "{'b'}", "_offset_"]))
+        b = rng.choice(["0", "1", "2", "3", "-1", "0.5", "{1}"]) if op == "**" else rand_expr(rng, depth - 1)
+        if op == "**" and "**" in a:
+            op = "*"
+        return "(%s %s %s)" % (a, op, b)
+    if r < 0.7:
+        return "%s(%s)" % (rng.choice(["-", "+", "!"]), rand_expr(rng, depth - 1))
+    if r < 0.95:
+        return "(%s).%s" % (rand_expr(rng, depth - 1), rng.choice(ATTRS))
+    return "{%s, %s}" % (rand_expr(rng, depth - 1), rand_expr(rng, depth - 1))
+
+
+def rand_expr_line(rng: random.Random) -> str:
+    e = rand_expr(rng, rng.randint(1, 3))
+    k = rng.random()
+    if k < 0.4:
+        return "@print " + e
+    if k < 0.6:
+        return "@assert " + e
+    if k < 0.75:
+        return "uint8 EX_K = " + e
+    if k < 0.85:
+        return "uint8[%s] ex_arr" % e
+    if k < 0.93:
+        return "float32 EX_F = " + e
+    return "@extent " + e
+
+
 def bounded(text: str) -> bool:
     """Magnitude / nesting pre-filter (the property quantifies over bounded length and nesting)."""
-    if len(text) > 6000:
+    if len(text) > 12000:
         return False
     for ln in text.split("\n"):
         if ln.count("**") > 1:
             return False
         m = re.search(r"\*\*\s*\(?\s*-?\s*(\d[\d_]*)", ln)
-        if m and len(m.group(1).replace("_", "")) > 4:
+        if m and len(m.group(1).replace("_", "")) > 4:  # exponent of at most 4 digits
             return False
-        if re.search(r"\d{40,}", ln):
+        if re.search(r"\d{4500,}", ln):
             return False
         depth = mx = 0
         for ch in ln:
@@ -72,7 +121,7 @@ def bounded(text: str) -> bool:
 
 def corrupt(rng: random.Random, text: str, others: list[str], svc_names: list[str]) -> tuple[str, str]:
     kind = rng.choice(["torn_line", "torn_token", "torn_char", "lost_block", "dup_block", "splice", "tok_delete", "tok_dup", "tok_swap",
-                       "tok_replace", "noise", "noise", "corner", "corner", "corner", "svc_corner"])
+                       "tok_replace", "noise", "noise", "corner", "corner", "corner", "corner", "corner", "corner", "svc_corner"])
     lines = text.split("\n")
     toks = _TOKEN.findall(text)
     if kind == "torn_line":
@@ -121,6 +170,10 @@ def corrupt(rng: random.Random, text: str, others: list[str], svc_names: list[st
         frag = rng.choice(SVC_CORNERS).replace("%s", rng.choice(svc_names))
         i = rng.randint(0, len(lines))
         return "svc_corner", "\n".join(lines[:i] + [frag] + lines[i:])
+    if rng.random() < 0.5:
+        frag = rand_expr_line(rng)
+        i = rng.randint(0, len(lines))
+        return "expr", "\n".join(lines[:i] + [frag] + lines[i:])
     frag = rng.choice(CORNERS)
     i = rng.randint(0, len(lines))
     return "corner", "\n".join(lines[:i] + [frag] + lines[i:])
@@ -132,15 +185,16 @@ class C13(Check):
     RULE = ("each run = one valid workspace with dependencies in which the text of ONE definition inside the closure is corrupted "
             "as a storage fault: torn write (prefix at line / token / character boundaries), lost block, duplicated block, block "
             "spliced from another definition, token delete / duplicate / swap / replace, character noise incl. control and "
-            "non-ASCII characters, one of ~150 arithmetic / lexical corner fragments (bounded magnitude and nesting), service "
-            "types used as values; or one stray directory entry (39 odd file / directory names incl. twins encoding the same "
+            "non-ASCII characters, one of ~160 arithmetic / lexical corner fragments or a random constant expression of depth <= 3 over 31 atoms, 17 binary "
+            "and 3 unary operators and 7 attributes (bounded magnitude and nesting), service "
+            "types used as values; or one stray directory entry (54 odd file / directory names incl. twins encoding the same "
             "name and version). Oracle: the call returns or raises an InvalidDefinitionError whose path names a file of the "
             "workspace; InternalError, any non-pydsdl exception or no progress within the watchdog limit is a violation. "
             "distinct = hash of (fault kind, resulting exception class, target or dependency); non-trivial = the corrupted text "
             "differs from the original and the file was opened by the reader (probe)")
     TIERS = {"quick": {"runs": 3200, "budget_s": 50}, "thorough": {"runs": 200000, "budget_s": 1200}}
     ASSUMPTIONS = ["bounded magnitude and nesting (pre-filter 'bounded()' in dsim/checks/c13.py): at most one ** per line with an exponent of "
-                   "at most 4 digits, bracket depth <= 12, text <= 6000 characters",
+                   "at most 4 digits, bracket depth <= 12, text <= 12000 characters, numeric literals <= 4500 digits",
                    "not injected: directories or dangling symlinks named like definition files, unreadable files, non-UTF-8 bytes"]
 
     def generate(self, rng: random.Random, r: int, tier: str) -> dict:
